@@ -185,6 +185,9 @@ class IpH(explore.Harness):
         if pr is not None:
             st = (getattr(pr, "c2a_counter", None), getattr(pr, "a2c_counter", None), bytes(getattr(pr, "_incoming_buffer", b"")), len(pr.result_cbs))
         cur = self._cur()
+        from vt import canon as _c
+
+        st = (st, _c.canon(pr, depth=2, skip=("connection", "loop", "transport", "encryptor", "decryptor", "c2a_key", "a2c_key")) if pr is not None else None)
         return (st, cur.cid if cur else None, tuple(len(v) for v in self.queue.values()), tuple((t.done(), t.cancelled()) for t in self.tasks), len(self.net.conns),
                 tuple(sorted(round(h._when - self.loop.time(), 6) for h in self.loop._scheduled if not h._cancelled)), len(self.log.events))
 
